@@ -142,6 +142,7 @@ gcm_decrypt(br_sslrec_gcm_context *cc,
 	for (u = 0; u < 16; u ++) {
 		bad |= tag[u] ^ buf[len + u];
 	}
+	BR_VERIF_PUBLIC(&bad, sizeof bad);
 	if (bad) {
 		return NULL;
 	}
